@@ -94,6 +94,19 @@ def phase1(ctx):
             n = REPEAT[op] if (thorough or op not in HEAVY) else max(3, REPEAT[op] // 3)
             cs.append(("repeat %s %d %d" % (op, r.below(10**6) + 256, n), "repeat:" + op))
     cs.append(("randguard %d" % r.below(10**6), "randguard"))
+    # ---- wave 2: the same context / stream used again after an entropy failure
+    sd = lambda: r.below(10**6) + 256
+    for pre in ([0, 1, 31, 32, 33, 64] if not thorough else [0, 1, 2, 16, 31, 32, 33, 63, 64, 65]):
+        rels = [0] if pre % 32 else ([0, 1, 15, 30, 31] if not thorough else list(range(32)))
+        for rel in rels:
+            cs.append(("recover sm2_sign_ctx %d %d %d 40" % (sd(), pre, rel), "recover:sm2_sign_ctx:pre=%s:%s" % (pre if pre % 32 else "32k", "first" if rel == 0 else ("last" if rel == 31 else "middle"))))
+    for pre in (0, 7, 8, 9):
+        for rel in (0, 3, 7):
+            cs.append(("recover sm2_enc_ctx %d %d %d 20" % (sd(), pre, rel), "recover:sm2_enc_ctx:pre=%d" % pre))
+    for op, rels in (("sm2_sign", [0]), ("sm2_encrypt", [0]), ("sm2_keygen", [0]), ("sm2_ecdhe", [0]), ("tls_cbc", [0]), ("tls_record", [0]), ("tls_random", [0]),
+                     ("x509_sign", [0, 16, 32]), ("cms_sign", [0, 1]), ("cms_envelop", [0, 1]), ("sm2_sign_ctx", [0, 31]), ("sm9_sign", [0]), ("sm9_encrypt", [0])):
+        for rel in rels:
+            cs.append(("recover %s %d %d %d %d" % (op, sd(), 2 if op in HEAVY else 4, rel, 2 if op in HEAVY else 6), "recover:" + op))
     return cs
 
 
@@ -113,7 +126,7 @@ def run(ctx):
         t0 = time.time()
         outs, err = core.run_lines(exe, [c[0] for c in cs], shards=4)
         t1 = time.time()
-        fails = []
+        fails, eints = [], []
         for (line, cell), o in zip(cs, outs):
             ctx.cov["evaluations"] += 1
             kind, op = line.split()[0], line.split()[1]
@@ -126,6 +139,15 @@ def run(ctx):
                     ctx.violation("randguard", "rand_bytes length guard: `%s` -> %s" % (line, o[:200]),
                                   {"kind": "failing-input", "op": line, "impl": o, "expected": "GUARD ok", "variant": "asan"}, True)
                 continue
+            if kind == "recover":
+                if o.startswith("FRESH"):
+                    ctx.cell(cell + (":failed-attempt" if "attempt=-1" in o else ":not-reached"))
+                else:
+                    what = "reuse" if o.startswith("REUSE") else "broken"
+                    ctx.violation("recover-%s:%s" % (what, op), ("an ephemeral value / nonce produced before an entropy failure is produced again after it" if what == "reuse"
+                                  else "the context is unusable or produces invalid output after an entropy failure") + ": `%s` -> %s" % (line, o[:200]),
+                                  {"kind": "failing-input", "op": line, "impl": o, "expected": "FRESH", "variant": "asan", "stderr": err[-1200:] if o.startswith("FAULT") else ""}, True)
+                continue
             if kind == "count":
                 m = re.match(r"DRAWS rc=1 draws=(\d+)", o)
                 if not m:
@@ -137,6 +159,14 @@ def run(ctx):
                         bad = "draws=%d but the operation is %sexpected to use entropy" % (k, "not " if op in NOENT else "")
                     sd = line.split()[2]
                     idx = list(range(k)) + [-2] if k else []
+                    if k and op not in ("sm2_sign_ctx_multi",):
+                        heavy = op in HEAVY
+                        eidx = [0] if heavy else sorted({0, k // 2, k - 1})
+                        for i in eidx:
+                            for kk in ((1, 8, 16) if heavy else (1, 2, 7, 8, 9, 16)):
+                                for en in (("EINTR", "untouched") if heavy else ("EINTR", "EAGAIN", "EIO", "ENOSYS", "untouched")):
+                                    if len([1 for e in eints if e[0].split()[1] == op]) < (6 if heavy else 90):
+                                        eints.append(("eint %s %s %d %s %d" % (op, sd, i, en, kk), "eint:%s:%s:k%s" % (op, en, "1" if kk == 1 else ("<=8" if kk <= 8 else ">8"))))
                     for i in idx:
                         fails.append(("fail %s %s %d" % (op, sd, i), "fail:%s:%s" % (op, "all-draws" if i == -2 else ("first" if i == 0 else ("last" if i == k - 1 else "middle")))))
             elif kind == "det":
@@ -165,6 +195,24 @@ def run(ctx):
         # ---- phase 2: one run per (operation, draw index) with that draw failing
         outs2, err2 = core.run_lines(exe, [c[0] for c in fails], shards=4)
         t2 = time.time()
+        # ---- wave 2: k consecutive failing attempts with a chosen errno, destination poisoned, then the healthy bytes
+        outs3, err3 = core.run_lines(exe, [c[0] for c in eints], shards=4)
+        ctx.notes.append("errno / repeated-attempt faults: %d runs in %.1fs" % (len(eints), time.time() - t2))
+        for (line, cell), o in zip(eints, outs3):
+            ctx.cov["evaluations"] += 1
+            ctx.count("eint")
+            w = line.split()
+            if o.startswith("EQUAL"):
+                ctx.cell(cell + ":retried")
+            elif o.startswith("FAILED"):
+                ctx.cell(cell + ":ERR")
+            elif o.startswith("NOTREACHED"):
+                ctx.cell(cell + ":notreached")
+            else:
+                ctx.violation("eint:%s:%s" % (w[4], w[1]), "draw %s failed %s time(s) with errno %s and the operation neither failed nor reproduced the healthy output (it used bytes the source never served): `%s` -> %s" % (
+                    w[3], w[5], w[4], line, o[:220]),
+                    {"kind": "failing-input", "op": line, "impl": o, "expected": "FAILED, or EQUAL to the healthy run", "variant": "asan",
+                     "stderr": err3[-1200:] if o.startswith("FAULT") else ""}, True)
         ctx.notes.append("runtime: %d stream cases in %.1fs, %d failure injections in %.1fs" % (len(cs), t1 - t0, len(fails), t2 - t1))
         for (line, cell), o in zip(fails, outs2):
             ctx.cov["evaluations"] += 1
